@@ -95,7 +95,7 @@ def make_spec(r, op, method, quick, force=None):
     lo = max(min_k(method, d) + 2, 6)
     N = force.get("N") or r.range(lo, max(lo, r.choice([12, 20, Nmax])))
     kern = force.get("kern") or r.choice(KERNELS)
-    scale = r.choice([1, 1, 1, vlib_frac(1, 64), 32])
+    scale = force.get("unit") or _ll.pick_unit(r)
     pts = _ll.gen_points(r, kind, N, D, scale)
     intr = [list(c) for c in _ll.INTRINSIC] if kind.startswith("flat") else None
     kmin = max(min_k(method, d), 3 if op == "embed" else 1)
@@ -108,6 +108,7 @@ def make_spec(r, op, method, quick, force=None):
         k = r.range(kmin, N - 1)
     k = force.get("k") or min(max(k, kmin), N - 1)
     spec = {
+        "unit": scale,
         "op": op, "method": method, "kind": kind, "D": D, "d": d, "pts": pts, "kern": kern, "k": k,
         "kc": r.choice([1, 4, 16]),
         "shift": r.choice(["0", "1:-30", "1:-10"]),
@@ -136,13 +137,14 @@ def vlib_frac(a, b):
 def build_line(spec):
     pts = spec["pts"]
     N = len(pts)
-    K = _ll.kernel_matrix(pts, spec["kern"], spec["kc"])
+    unit = spec.get("unit", 1)
+    K = _ll.kernel_matrix(pts, spec["kern"], spec["kc"], unit)
     sel = None
     Kall = K
     if spec.get("dseed") is not None:
         D = len(pts[0])
-        allp, sel = _ll.with_decoys(pts, spec["dseed"], lambda rr: [_ll.Fraction(rr.range(-1024, 1024), 128) for _ in range(D)])
-        Kall = _ll.kernel_matrix(allp, spec["kern"], spec["kc"])
+        allp, sel = _ll.with_decoys(pts, spec["dseed"], lambda rr: [_ll.Fraction(rr.range(-1024, 1024), 128) * unit for _ in range(D)])
+        Kall = _ll.kernel_matrix(allp, spec["kern"], spec["kc"], unit)
     k = min(spec["k"], N - 1)
     head = "op=%s N=%d k=%d d=%d shift=%s tshift=%s" % (spec["op"], N, k, spec["d"], spec["shift"], spec["tshift"])
     if spec["op"] == "embed":
